@@ -3,7 +3,7 @@ import json
 import os
 import re
 
-from .. import common, extract, flow, paths
+from .. import guards, common, extract, flow, paths
 from ..facts import callee_def, callee_resolved, short
 from ..model import load_model
 from ..report import AnchorMissing
@@ -436,6 +436,13 @@ def rule_r4(chk, db, model):
     if pre:
         ok = bool(store) and all(not (p in flow.reach(prep, [0], stop_blocks=frozenset(store))) for p in pre)
         chk.verdict(ok, "R4", "PutObject[form].vec_stream", prep.loc(pre[0]), "the POST-form pre-emption is reachable without storing s3ext.vec_stream (deserialize_http_multipart would panic)")
+        mp = db.body("s3s::ops::generated::PutObject::deserialize_http_multipart")
+        mcalls = {short(callee_def(t)) for _, t in mp.calls() if callee_def(t).startswith("s3s::http::de::")} if mp is not None else set()
+        for fn, want in (("unwrap_bucket", "Bucket"), ("unwrap_object", "Object")):
+            if fn in mcalls:
+                okp = all(any(v == frozenset([want]) for v in guards.enum_fact(guards.dominating_facts(prep, p), "S3Path")) for p in pre)
+                chk.verdict(okp, "R4", "PutObject[form].path", prep.loc(pre[0]),
+                            "deserialize_http_multipart calls %s but the POST-form pre-emption in prepare is not confined to S3Path::%s" % (fn, want))
 
 
 def run(chk, db, tier):
